@@ -26,6 +26,7 @@ type Piece struct {
 	Arr  *Term       // raw: the byte array the window reads (for extensional comparison)
 	Fn   interface{} // app: *ssa.Function
 	ArgV []Val       // app: original argument values (for unfolding)
+	Alts []alt       // alt: guarded alternatives (exactly one guard holds)
 }
 
 // alt is one guarded alternative produced by unfolding a recursive spec text.
@@ -62,6 +63,12 @@ func (p Piece) String() string {
 		return fmt.Sprintf("%s(%s)", p.S, strings.Join(a, ","))
 	case "opaque":
 		return fmt.Sprintf("Text#%d", p.ID)
+	case "alt":
+		s := []string{}
+		for _, al := range p.Alts {
+			s = append(s, al.Cond.String()+" -> "+textString(al.P))
+		}
+		return "Alt{" + strings.Join(s, " | ") + "}"
 	}
 	return "?"
 }
@@ -253,6 +260,11 @@ func matchT(a, b []Piece, depth int) *Term {
 		for k, p := range rest {
 			if p.K == "raw" {
 				c = And(c, Eq(p.Len, BVu(0, 64)))
+			} else if p.K == "alt" {
+				for _, al := range p.Alts {
+					c = And(c, Implies(al.Cond, matchT(normText(append(append([]Piece{}, al.P...), rest[k+1:]...)), nil, depth+1)))
+				}
+				return c
 			} else if p.K == "app" && unfoldHook != nil && depth < 40 {
 				alts, ok := unfoldHook(p)
 				if !ok {
@@ -269,6 +281,17 @@ func matchT(a, b []Piece, depth int) *Term {
 		return c
 	}
 	x, y := a[0], b[0]
+	// guarded alternatives: the text is al.P under al.Cond
+	if x.K == "alt" {
+		c := tTrue
+		for _, al := range x.Alts {
+			c = And(c, Implies(al.Cond, matchT(normText(append(append([]Piece{}, al.P...), a[1:]...)), b, depth+1)))
+		}
+		return c
+	}
+	if y.K == "alt" {
+		return matchT(b, a, depth+1)
+	}
 	// signed expansions
 	if x.K == "decs" && y.K == "decs" && x.W == y.W && x.Zero == y.Zero && x.S == y.S {
 		return And(Eq(x.T, y.T), matchT(a[1:], b[1:], depth+1))
@@ -374,6 +397,12 @@ func matchT(a, b []Piece, depth int) *Term {
 			return tFalse
 		}
 		return matchT(a[1:], b[1:], depth+1)
+	case x.K == "raw" && y.K == "app" && len(a) == 1 && len(b) == 1 && x.Arr != nil:
+		// bytes of unknown content against the (abstract) text of a spec function application: both are named by
+		// uninterpreted text identities — equal identities is what a contract stating SameText(view, f(args)) gives
+		return Eq(viewTextID(x), appTextID(y))
+	case y.K == "raw" && x.K == "app" && len(a) == 1 && len(b) == 1 && y.Arr != nil:
+		return Eq(viewTextID(y), appTextID(x))
 	case x.K == "raw" && y.K != "raw":
 		// a raw piece may be empty
 		return And(Eq(x.Len, BVu(0, 64)), matchT(a[1:], b, depth+1))
@@ -413,4 +442,23 @@ func contentEq(arrA, offA, arrB, offB, n *Term) *Term {
 	qf := &Term{Leaf: fresh("qfeq"), W: 0, QDef: all}
 	contentEqMemo[key] = qf
 	return qf
+}
+
+// viewTextID / appTextID: abstract identities of a byte string. The identity of a view is a function of the bytes
+// it shows (array, offset, length); the identity of f(args) a function of the arguments. For any two different
+// byte strings there is an interpretation that tells them apart, so equality proved for all interpretations is
+// equality of the strings.
+func viewTextID(p Piece) *Term {
+	DeclareUF("txtOfView", []string{byteArrSort, "I64", "I64"}, "I64")
+	return UF("txtOfView", 64, p.Arr, p.Off, p.Len)
+}
+
+func appTextID(p Piece) *Term {
+	name := fmt.Sprintf("txtOfApp_%s_a%d", p.S, len(p.Args))
+	var sorts []string
+	for _, a := range p.Args {
+		sorts = append(sorts, sortOf(a))
+	}
+	DeclareUF(name, sorts, "I64")
+	return UF(name, 64, p.Args...)
 }
